@@ -44,6 +44,9 @@ pub fn files_dir(xl: bool) -> PathBuf {
         std::fs::write(d.join("empty.dlt"), b"").unwrap();
         std::fs::write(d.join("junk.dlt"), vec![0x55u8; 3000]).unwrap();
         std::fs::write(d.join("junk.zip"), vec![0x55u8; 3000]).unwrap();
+        std::fs::create_dir_all(d.join("muniic_bad")).unwrap();
+        std::fs::write(d.join("muniic_bad/bad.json"), [0xffu8, 0xfe, 0x00, 0x7b]).unwrap();
+        std::fs::create_dir_all(d.join("dir.zip")).unwrap();
         {
             // a valid archive with the 5000 message file
             let mut w = zip::ZipWriter::new(std::fs::File::create(d.join("z.zip")).unwrap());
@@ -83,7 +86,7 @@ pub enum Cmd {
 }
 
 fn cmd(xl: bool) -> impl Strategy<Value = Cmd> {
-    let open_kinds: Vec<u8> = if xl { (0u8..23).collect() } else { (0u8..23).filter(|k| *k != 10).collect() };
+    let open_kinds: Vec<u8> = if xl { (0u8..25).collect() } else { (0u8..25).filter(|k| *k != 10).collect() };
     prop_oneof![
         4 => prop::sample::select(open_kinds).prop_map(Cmd::Open),
         2 => Just(Cmd::Close),
@@ -93,10 +96,10 @@ fn cmd(xl: bool) -> impl Strategy<Value = Cmd> {
         2 => (0u8..10).prop_map(Cmd::Query),
         2 => (0u8..6).prop_map(Cmd::Stop),
         3 => (prop_oneof![4 => 0u8..3, 1 => 3u8..6], 0u8..8).prop_map(|(a, b)| Cmd::ChangeWin(a, b)),
-        3 => (prop_oneof![4 => 0u8..3, 1 => 3u8..6], 0u8..8).prop_map(|(a, b)| Cmd::BinSearch(a, b)),
-        3 => (prop_oneof![4 => 0u8..3, 1 => 3u8..6], 0u8..8).prop_map(|(a, b)| Cmd::Search(a, b)),
+        3 => (prop_oneof![4 => 0u8..3, 1 => 3u8..6], 0u8..11).prop_map(|(a, b)| Cmd::BinSearch(a, b)),
+        3 => (prop_oneof![4 => 0u8..3, 1 => 3u8..6], 0u8..11).prop_map(|(a, b)| Cmd::Search(a, b)),
         2 => (0u8..6).prop_map(Cmd::PluginCmd),
-        1 => (0u8..6).prop_map(Cmd::Fs),
+        2 => (0u8..11).prop_map(Cmd::Fs),
         1 => (0u8..6).prop_map(Cmd::Garbage),
         1 => (0u8..4).prop_map(Cmd::Wait),
         3 => (0u8..6).prop_map(Cmd::Burst),
@@ -106,7 +109,7 @@ fn cmd(xl: bool) -> impl Strategy<Value = Cmd> {
 /// mostly: open something, create some streams, then arbitrary commands
 fn history(xl: bool) -> impl Strategy<Value = Vec<Cmd>> {
     (
-        prop::option::weighted(0.8, prop_oneof![4 => 0u8..7, 1 => Just(11u8), 2 => prop::sample::select(if xl { (0u8..23).collect::<Vec<u8>>() } else { (0u8..23).filter(|k| *k != 10).collect() })]),
+        prop::option::weighted(0.8, prop_oneof![4 => 0u8..7, 1 => Just(11u8), 2 => prop::sample::select(if xl { (0u8..25).collect::<Vec<u8>>() } else { (0u8..25).filter(|k| *k != 10).collect() })]),
         prop::collection::vec(prop_oneof![3 => (0u8..5).prop_map(Cmd::Stream), 1 => (0u8..5).prop_map(Cmd::Query), 1 => Just(Cmd::Resume)], 0..4),
         prop::collection::vec(cmd(xl), 1..22),
         prop::option::weighted(0.35, 0u8..3),
@@ -290,11 +293,13 @@ fn check(cmds: &Vec<Cmd>, rep: &mut Rep) -> Result<(), String> {
                         20 => format!(r#"{{"files":["{}"]}}"#, fp("junk.zip")),
                         21 => format!(r#"{{"files":["{}","{}"]}}"#, fp("missing.zip"), fp("z.zip/**/*.dlt")),
                         22 => format!(r#"{{"files":["{}"],"plugins":[{{"name":"FileTransfer","allowSave":true}},{{"name":"Rewrite","rewrites":[]}},{{"name":"FileTransfer","allowSave":false,"apid":"XYZ"}},{{"name":"Rewrite","rewrites":[]}}]}}"#, fp("m.dlt")),
+                        23 => format!(r#"{{"files":["{}"],"plugins":[{{"name":"Export","exportFileName":"{}","filters":[],"recordedTimeFromMs":18446744073709551615,"recordedTimeToMs":"18446744073709551615n"}}]}}"#, fp("s.dlt"), sb.path("export.dlt").display()),
+                        24 => format!(r#"{{"files":["{}"],"plugins":[{{"name":"Muniic","jsonDir":"{}"}}]}}"#, fp("s.dlt"), fp("muniic_bad")),
                         _ => format!(r#"{{"files":["{}"]}}"#, fp("xl.dlt")),
                     };
                     let valid = *k <= 6 || *k == 10 || *k == 11 || *k == 16 || *k == 17 || *k == 22;
                     // files without messages, missing files and archives: accepted or refused, the model follows the reply
-                    let either = [13u8, 14, 15, 19, 20, 21].contains(k);
+                    let either = [13u8, 14, 15, 19, 20, 21, 23, 24].contains(k);
                     (format!("open {}", j), if m.open { "err" } else if either { "ok|err" } else if !valid { "err" } else { "ok" }, "open")
                 }
                 Cmd::Close => ("close".into(), if m.open { "ok" } else { "err" }, "close"),
@@ -365,6 +370,9 @@ fn check(cmds: &Vec<Cmd>, rep: &mut Rep) -> Result<(), String> {
                         4 => " foo=1",
                         5 => " index",
                         6 => " time_ms=abc",
+                        8 => " time_ms=18446744073709551615",
+                        9 => " time_ms=18446744073709552",
+                        10 => " index=18446744073709551615",
                         _ => " index=0",
                     };
                     if live && [3u8, 4, 5].contains(a) {
@@ -382,12 +390,15 @@ fn check(cmds: &Vec<Cmd>, rep: &mut Rep) -> Result<(), String> {
                         4 => " {",
                         5 => r#" {"filters":[{"type":0,"payloadRegex":"("}]}"#,
                         6 => r#" {"filters":[{"type":3,"apid":"APA"}],"start_idx":1000000}"#,
+                        8 => r#" {"max_results":70368744177664}"#,
+                        9 => r#" {"max_results":18446744073709551615}"#,
+                        10 => r#" {"start_idx":18446744073709551615,"max_results":4294967296}"#,
                         _ => " {}",
                     };
                     if live && [2u8, 3, 4, 5].contains(a) {
                         malformed_to_live = true;
                     }
-                    (format!("stream_search {}{}", id, arg), if m.open && live && [0u8, 1, 6, 7].contains(a) { if op { "ok|err" } else { "ok" } } else { "err" }, "stream_search")
+                    (format!("stream_search {}{}", id, arg), if m.open && live && [0u8, 1, 6, 7].contains(a) { if op { "ok|err" } else { "ok" } } else if m.open && live && [8u8, 9, 10].contains(a) { "ok|err" } else { "err" }, "stream_search")
                 }
                 Cmd::PluginCmd(k) => {
                     let j = match k {
@@ -409,6 +420,11 @@ fn check(cmds: &Vec<Cmd>, rep: &mut Rep) -> Result<(), String> {
                         2 => (r#"{"cmd":"stat","path":"/nonexistent/x"}"#.to_string(), "err"),
                         3 => (r#"{"cmd":"foo","path":"/"}"#.to_string(), "err"),
                         4 => ("{".to_string(), "err"),
+                        6 => (format!(r#"{{"cmd":"stat","path":"{}!/foo"}}"#, fp("junk.zip")), "ok|err"),
+                        7 => (format!(r#"{{"cmd":"readDirectory","path":"{}!/"}}"#, fp("junk.zip")), "ok|err"),
+                        8 => (format!(r#"{{"cmd":"readDirectory","path":"{}!/"}}"#, fp("dir.zip")), "ok|err"),
+                        9 => (format!(r#"{{"cmd":"readDirectory","path":"{}!/"}}"#, fp("z.zip")), "ok|err"),
+                        10 => (format!(r#"{{"cmd":"stat","path":"{}!/dir/m.dlt"}}"#, fp("z.zip")), "ok|err"),
                         _ => ("[1,2]".to_string(), "err"),
                     };
                     (format!("fs {}", j), e, "fs")
